@@ -19,14 +19,18 @@ def is_private_name(n: str) -> bool:
 def truth_decls(pkg: gen_pkg.Package):
     """yield dicts: kind, name, owner (dotted python path of the container), module, public(bool), obj, cls_chain"""
     reexp = {}
+    stay = set()
     for init in pkg.inits:
         for kind, mod, name, alias in init.reexports:
-            reexp[(mod, name)] = (init.dotted, alias)
+            if kind == "stay":
+                stay.add((mod, name))
+            else:
+                reexp[(mod, name)] = (init.dotted, alias)
     for m in pkg.modules:
         mod_public = not any(is_private_name(seg) for seg in m.dotted.split("."))
 
         def cls_rec(c: gen_pkg.Cls, owner: str, owner_public: bool, top: bool):
-            pub = owner_public and not is_private_name(c.name)
+            pub = (owner_public and not is_private_name(c.name)) or (top and (m.dotted, c.name) in stay)
             rx = reexp.get((m.dotted, c.name)) if top else None
             yield {"kind": "class", "name": c.name, "owner": owner, "module": m.dotted, "public": pub or bool(rx), "obj": c,
                    "reexport": rx}
@@ -845,6 +849,8 @@ def c11(case: Case):
                 finding = None
                 if case.job.get("nc") and name.lower() in {x.lower() for x in declared_in_pkg.get(frm, set())}:
                     finding = "nc_class_reference_not_converted"   # imported in lowerCamelCase, declared in UpperCamelCase
+                elif _reexported_not_above(case, frm, name):
+                    finding = "reexport_by_package_not_above"
                 out.append({"what": f"{path}: import of {name} from {frm} does not resolve to a generated stub", "decl": path, "finding": finding})
         for owner, d in sdsparse.walk_decls(mod):
             local = {x["name"] for x in mod["decls"]}
@@ -877,6 +883,25 @@ def c11(case: Case):
                 out.append({"what": f"{path}: {head} used in {d['pyname']} is neither built in, declared nor imported", "decl": path,
                             "finding": finding})
     return out, n
+
+
+def _reexported_not_above(case: Case, frm: str, name: str) -> bool:
+    """the import names the shallowest package whose __init__ re-exports the class, and that package is not above the
+    class's module: the tool leaves the class in its module's stub but imports it from the package"""
+    def loose(x: str) -> str:
+        return x.replace("_", "").lower()
+    for m in case.pkg.modules:
+        for c in m.classes:
+            if loose(c.name) != loose(name):
+                continue
+            by = [i for i in case.pkg.inits if any(m.dotted in ln and c.name in ln for ln in i.lines)]
+            if not by:
+                continue
+            least = min(len(i.dotted.split(".")) for i in by)
+            shallowest = [i for i in by if len(i.dotted.split(".")) == least]
+            if len(shallowest) == 1 and loose(shallowest[0].dotted) == loose(frm) and least >= len(m.dotted.split(".")):
+                return True
+    return False
 
 
 def _enclosing_names(mod, owner: str) -> set:
@@ -1125,3 +1150,23 @@ def _permuted_tuples(inferred) -> bool:
     """two returned tuples with the same multiset of element types in a different order"""
     tys = [tuple(_lit_type_name(v) for v in t) for t in inferred if len(t) > 1]
     return any(a != b and sorted(a) == sorted(b) for a in tys for b in tys)
+
+
+def files_c11_imports(files: dict, nc: bool = False) -> list:
+    """every import names a package and a declaration that exist in the generated stub set (placeholders included)"""
+    out = []
+    parsed = parsed_files({k: v for k, v in files.items() if k.endswith(".sdsstub")})
+    declared: dict[str, set] = {}
+    for path, (mod, err) in parsed.items():
+        if mod is not None:
+            declared.setdefault(mod["package"], set()).update(d["name"] for d in mod["decls"])
+    for path, (mod, err) in parsed.items():
+        if mod is None:
+            continue
+        for frm, name in mod["imports"]:
+            if name not in declared.get(frm, set()):
+                finding = None
+                if nc and name.lower() in {x.lower() for x in declared.get(frm, set())}:
+                    finding = "nc_class_reference_not_converted"
+                out.append({"what": f"{path}: import of {name} from {frm} does not resolve to a generated stub", "decl": path, "finding": finding})
+    return out
